@@ -7,7 +7,7 @@ def build(u):
     bw = Src.get("block_watcher.rs")
     m = Src.get("messages.rs")
     u.drop_async = True
-    for g in ["m:lock", "c:update_height", "c:poll_height", "m:get_info"]:
+    for g in ["m:lock", "m:try_lock", "c:update_height", "c:poll_height", "m:get_info"]:
         u.ghost_callees[g] = "Tracked(w)"
     common_head(u)
     u.env("height_env.rs")
